@@ -25,11 +25,16 @@ class Ctx:
     pass
 
 
-def all_prop_modules():
+def all_prop_modules(required=None):
     mods = {}
     for p in sorted(glob.glob(os.path.join(HERE, "props", "C*.py"))):
         name = os.path.basename(p)[:-3]
-        mods[name] = importlib.import_module("props." + name)
+        try:
+            mods[name] = importlib.import_module("props." + name)
+        except Exception:
+            if name == required:
+                raise
+            sys.stderr.write("[check] props/%s.py does not import; ignored for this run\n" % name)
     return mods
 
 
@@ -50,8 +55,8 @@ def regenerate(scratch, mods):
             if tr in done:
                 continue
             done.add(tr)
-            tmod = importlib.import_module("translate." + tr)
             try:
+                tmod = importlib.import_module("translate." + tr)
                 out = tmod.translate(scratch)
                 for rel, text in out.items():
                     esrv.write_if_changed(os.path.join(esrv.COQ, rel), text)
@@ -89,7 +94,7 @@ def main():
     prop = a.prop
     seed = int(os.environ.get("VERIF_SEED", "20261001"))
     tier = a.tier if a.tier in ("quick", "thorough") else "quick"
-    mods = all_prop_modules()
+    mods = all_prop_modules(required=prop)
     m = mods[prop]
     rep = esrv.Report(prop, tier, seed)
     ctx = Ctx()
